@@ -43,6 +43,15 @@ def build_items(tier: str, seed: int) -> Tuple[List[dict], Dict[str, Any]]:
 
     for fam, term in G.special_families():
         add(fam, term)
+    for fam, term in G.same_field_chains():
+        add(fam, term)
+    before = len(items)
+    for fam, term in G.deep_bool((2, 3, 4), G.bool_atoms(), rng, {4: 300} if quick else {}):
+        add(fam, term)
+    for fam, term in G.deep_arith((2, 3), rng, {3: 250} if quick else {}):
+        add(fam, term)
+    for it in items[before:]:
+        it["extra_alphabet"] = "()"          # the string atoms contain parentheses
     n_special = len(items)
     reduced = G.Cfg(G.scalar_leaves(["a", "%"]))
     for n in (0, 1):
